@@ -157,7 +157,7 @@ pub open spec fn neg_post(rb: Option<BlockValue>, ms: int, pl: int, m: int, r: R
     &&& (r is Ok && r->Ok_0 is Some ==> r->Ok_0->0.size_exponent <= 7)
     &&& (rb is Some && r is Ok ==> r->Ok_0 is Some)
     &&& (r is Ok && r->Ok_0 is None ==> rb is None && pl + ov + 12 < m)
-    &&& (ov + 28 <= m <= 1280 && r is Err ==> rb is Some)
+    &&& (ov + 28 <= m <= 1280 && r is Err ==> rb is Some && !(sz(rb->0.size_exponent) + ov + 32 <= m))
     &&& (ov + 28 <= m <= 1280 && r is Ok && r->Ok_0 is Some ==> {
             let b = r->Ok_0->0;
             // a power of two between 16 and 1024 that fits the budget with the 12-byte option reserve
@@ -418,7 +418,11 @@ fn probe_codec(v: Vec<u8>, b: BlockValue) requires b.size_exponent <= 7 {
 
 // ---------------------------------------------------------------- request / response / state
 use core::mem;
-pub uninterp spec fn overhead_of(p: Packet) -> nat;    // encoded size without the payload (unit enc)
+pub uninterp spec fn overhead_of(p: Packet) -> nat;
+// every option value fits the 16-bit extended length (true of every parsed message); then the size measurement cannot fail (unit msz)
+pub open spec fn opts_encodable(p: Packet) -> bool {
+    forall|k: u16, i: int| opts_view(p.options).contains_key(k) && 0 <= i < opts_view(p.options)[k].len() ==> (#[trigger] opts_view(p.options)[k][i]).len() <= 65804
+}    // encoded size without the payload (unit enc)
 pub struct CoapResponse { pub message: Packet }
 pub struct CoapRequest<Endpoint> { pub message: Packet, pub response: Option<CoapResponse>, pub source: Option<Endpoint> }
 '''
@@ -446,6 +450,7 @@ def build(repo):
         ensures neg_post(deref_opt(request_block), message_size as int, total_payload_size as int, max_total_message_size as int, r)''')
     u.stub_fn((BH, 'compute_message_size_hack'))
     u.contract((BH, 'compute_message_size_hack'), '''        ensures *final(packet) == *old(packet), r is Err ==> r->Err_0.code is Some,
+            opts_encodable(*old(packet)) ==> r is Ok,
             r is Ok ==> r->Ok_0 == overhead_of(*old(packet)) + old(packet).payload@.len() && r->Ok_0 <= usize::MAX / 4''')
     u.rule('R21:extending_splice', r'extending_splice\(\s*(&mut \w+|\w+),\s*(\w+)\s*\.\.\s*([^,]+),\s*([\w\.]+)\.iter\(\)\.copied\(\),\s*(\w+),?\s*\)',
            r'extending_splice_u8(\1, \2, \3, &\4, \5)', 1)
@@ -613,6 +618,14 @@ def build(repo):
                        && neg_post(b, overhead_of(old(request).message) as int + old(request).message.payload@.len() as int, old(request).message.payload@.len() as int, max_total_message_size as int, Ok(Some(nb)))
                        && #[trigger] opts_view(final(request).response->0.message.options)
                            == push_opt(opts_view(old(request).response->0.message.options), 27, block_bytes(nb)) }),
+            // C09: a block that is not out of reach is accepted whenever there is a reply to answer with and the budget admits
+            // the client's block size (in particular a block delivered a second time in a row)
+            ({ // @clause block-accepted @props C09
+               let b = first_block(opts_view(old(request).message.options), 27);
+               let ov = overhead_of(old(request).message) as int; let m = max_total_message_size as int;
+               b is Some && old(request).response is Some && opts_encodable(old(request).message)
+                   && (b->0.num as int) * sz(b->0.size_exponent) + sz(b->0.size_exponent) <= buf_of(*old(state)).len() + 16384
+                   && sz(b->0.size_exponent) + ov + 32 <= m && m <= 1280 ==> r is Ok }),
             // C09 "exactly once": a final block with num > 0 that finds no upload in progress (the final block
             // delivered a second time) must not be handed to the application
             ({ // @clause final-duplicate-not-delivered @props C09
